@@ -854,6 +854,8 @@ func (env *Env) trCall(e *E) Val {
 		}
 		cell := fmt.Sprintf("(clovar %s %d)", arg(0).S, e.A[1].N)
 		return Val{S: sel(env.heap("C_Int"), cell), Sort: "Int"}
+	case "emptySet": // emptySet(): the set (Array Int Bool) with no members, for initialising ghost sets
+		return Val{S: "((as const (Array Int Bool)) false)", Sort: "(Array Int Bool)"}
 	case "objOf": // objOf(s): the identity of the array object behind slice s (0 for nil)
 		x := arg(0)
 		if x.Sort != "Slice" {
